@@ -15,7 +15,8 @@ structure LObj where
   syncTid : String := ""
   accN : Nat := 0                 -- index of the mock acceptor it created (0 = none)
   accClosedObs : Bool := false
-  listenFailed : Bool := false    -- the factory refused to listen in the Sync that is returning
+  listenFailed : Bool := false    -- the factory refused to listen in the Sync that is returning (model side)
+  refusedObs : Bool := false      -- … as observed (event of the mock factory)
   ret : String := ""              -- observed class of Sync's result ("" = not returned)
   deriving Inhabited
 
@@ -231,6 +232,12 @@ def onEvent (s : S) (tid point : String) (ev : String) : S :=
     match st0 with
     | some st => { s with cs := s.cs ++ [{ conn := natOf conn, st := st }], chanCtx := assoc s.chanCtx tid (natOf conn) }
     | none => s.fail "accept: the model cannot accept here"
+  | ["cli", "connect", conn] =>
+    -- an outgoing connection (Bootstrap.Connect): served like an accepted one
+    let st0 : Option CSt := crun {} (s.gc ++ [.accept])
+    match st0 with
+    | some st => { s with cs := s.cs ++ [{ conn := natOf conn, st := st }], chanCtx := assoc s.chanCtx tid (natOf conn) }
+    | none => s.fail "connect: the model cannot create a channel here"
   | ["chan", chid, conn] => s.updC (natOf conn) (fun c => { c with chid := natOf chid })
   | ["active", chid] =>
     match connOfChid s (natOf chid) with
@@ -249,15 +256,22 @@ def onEvent (s : S) (tid point : String) (ev : String) : S :=
     match s.getC (natOf conn) with
     | some c => if c.trCloses > 1 && s.viol.isNone then { s with viol := some s!"transport of connection {conn} closed {c.trCloses} times" } else s
     | none => s
+  | ["acc", "refuse", _k] =>
+    -- observation only: the factory refused to listen in the Sync running on this thread
+    match s.ls.find? (·.syncTid == tid) with
+    | some o => s.updL o.id (fun o => { o with refusedObs := true })
+    | none => s
   | ["sync", "ret", _k, _g, cls] =>
     match s.ls.find? (·.syncTid == tid) with
     | none => s.fail "Sync returned on an unknown thread"
     | some o =>
-      let s := s.updL o.id (fun o => { o with ret := cls })
+      -- what was observed (independent of the model): a Sync that reports the factory's refusal is over, the listener may be synced again
+      let refused := o.refusedObs && cls == "other"
+      let s := s.updL o.id (fun o => if refused then { o with refusedObs := false, ret := "", syncTid := "" } else { o with ret := cls })
       if s.dead.isSome then s else
       match o.st.pc with
       | .idle =>
-        if o.listenFailed && cls == "other" then s.updL o.id (fun o => { o with listenFailed := false, ret := "", syncTid := "" })
+        if o.listenFailed && refused then s.updL o.id (fun o => { o with listenFailed := false })
         else s.fail s!"Sync returned {cls} but the model is in {repr o.st}"
       | .returned b => if b == (cls == "closed") then s else s.fail s!"Sync returned {cls}; the model says serverClosed = {b}"
       | _ => s.fail s!"Sync returned {cls} but the model is in {repr o.st}"
